@@ -527,3 +527,57 @@ CANCEL_ORDER = FSpec("Market._cancel_order", axioms=lambda st, a: market_axioms(
 def t_cancel_order():
     obl, info = CANCEL_ORDER.verify(specs=market_callee_specs(), setup=B.setup_book)
     return {"obligations": obl, "info": [info]}
+
+
+# ----------------------------------------------------------------------------- establishment of the invariants (step (i) of DESIGN 3.6)
+@task("OrderBook.__init__ establishes BookInv", props=["C02", "C04"], functions=["OrderBook.__init__"], replay=None)
+def t_book_init():
+    from pyvc.spec import Executor
+    ex = Executor(current="OrderBook.__init__"); B.setup_book(ex, None, None)
+    st = State(); st.labels = ["OrderBook.__init__"]
+    side = V(("bool",), z3.Bool("side_is_buy"))
+    outs = ex.construct(V(("class",), None, py="OrderBook"), [], {"is_buy": side}, st, 0, None)
+    for s1, bk in outs:
+        for l, f in book_inv(s1.peek(), bk):
+            s1.oblige("post:a new book satisfies " + l, f, "post")
+        s1.oblige("post:a new book is at time 0 on its side", z3.And(s1.read(bk, "time").term == 0, s1.read(bk, "is_buy").term == side.term), "post")
+    st.obl.append({"name": "OrderBook.__init__/cover:paths", "pc": [], "goal": z3.BoolVal(len(outs) == 1 and not ex.escaped), "kind": "cover"})
+    src = get_src_m()
+    return {"obligations": st.obl, "info": [{"function": "OrderBook.__init__", "source_sha": src.source_hash("OrderBook.__init__"), "where": src.where("OrderBook.__init__"), "paths": len(outs), "assumptions": sorted(ex.used_assumptions)}]}
+
+
+def get_src_m():
+    from pyvc.src import get_src
+    return get_src()
+
+
+@task("Market.__init__ + setup establish the pre-first-tick MarketInv", props=["C04", "C06", "C08"], functions=["Market.__init__", "Market.setup", "OrderBook.__init__"], replay=None)
+def t_market_init():
+    """a freshly constructed and configured market satisfies the precondition of its first clock tick (ut_pre): so MarketInv holds from time 0 on (induction base)"""
+    from pyvc.spec import Executor
+    from .session import has, get
+    ex = Executor(current="Market.__init__"); B.setup_book(ex, None, None)
+    st = State(); st.labels = ["Market.__init__+setup"]
+    settings = V(("dict", ("str",), ("dyn",)), z3.Const("market_settings", REF)); st.assume_alloc(settings)
+    sim = sym_obj("Simulator", "sim"); st.assume_alloc(sim)
+    prng = sym_obj("Random", "prng")
+    num = lambda v: z3.Or(dyn_is_int(v), dyn_is_real(v))
+    st.assume(z3.And(has(st, settings, "tickSize"), dyn_is_real(get(st, settings, "tickSize")), z3.Or(has(st, settings, "marketPrice"), has(st, settings, "fundamentalPrice")),
+                     z3.Implies(has(st, settings, "marketPrice"), num(get(st, settings, "marketPrice"))), z3.Implies(has(st, settings, "fundamentalPrice"), num(get(st, settings, "fundamentalPrice"))),
+                     z3.Implies(has(st, settings, "outstandingShares"), dyn_is_int(get(st, settings, "outstandingShares")))))
+    n = 0
+    outs = ex.construct(V(("class",), None, py="Market"), [], {"market_id": mkint(0), "prng": prng, "simulator": sim, "name": V(("str",), z3.StringVal("m"))}, st, 0, None)
+    for s1, m in outs:
+        for s2, _ in ex.call_method(m, "setup", [], {"settings": settings}, s1.copy(), 0, None):
+            n += 1
+            a = {"self": m, "next_fundamental_price": V(("real",), z3.Real("f0"))}
+            for l, f in ut_pre(s2.peek(), a):
+                if l.startswith("chunk size"):
+                    continue
+                s2.oblige("post:a configured new market satisfies " + l, f, "post")
+            s2.oblige("post:chunk size positive", s2.read(m, "chunk_size").term > 0, "post")
+    for s_, k_, v_ in ex.escaped:
+        s_.oblige(f"no-raise:{v_[0]}@{v_[1]}", z3.BoolVal(False), "no-raise")
+    st.obl.append({"name": "Market.__init__/cover:paths", "pc": [], "goal": z3.BoolVal(n >= 1), "kind": "cover"})
+    src = get_src_m()
+    return {"obligations": st.obl, "info": [{"function": q, "source_sha": src.source_hash(q), "where": src.where(q), "paths": n, "assumptions": sorted(ex.used_assumptions)} for q in ("Market.__init__", "Market.setup")]}
